@@ -1660,3 +1660,192 @@ pub fn spin_lock_family(tier: &str) -> Vec<Program> {
     }
     out
 }
+
+
+// ------------------------------------------------------------------------------------------
+// MIX: blocks of different primitive kinds in one program
+// ------------------------------------------------------------------------------------------
+
+/// Every thread runs 1..=maxblocks blocks drawn from: mutex section (with a data increment),
+/// rwlock read / write section, condvar notify / guarded wait, Notify wait / notify, park /
+/// unpark main, channel send, (main only) channel recv / try_recv.
+pub fn mix_family(nchildren: usize, maxblocks: usize, main_blocks: usize, max_total_ops: usize) -> Vec<Program> {
+    let child_blocks = |me: usize| -> Vec<Vec<Op>> {
+        let mut b: Vec<Vec<Op>> = vec![
+            vec![K::Lock { m: 0 }.into(), fadd(1, 1, Rlx), K::Unlock { m: 0 }.into()],
+            vec![K::TryLock { m: 0 }.into(), K::FetchAdd { a: 1, v: 1, mo: Rlx }.when(0, Res::Ok(0)), K::Unlock { m: 0 }.when(0, Res::Ok(0))],
+            vec![K::Read { l: 0 }.into(), K::UnlockR { l: 0 }.into()],
+            vec![K::Write { l: 0 }.into(), K::UnlockW { l: 0 }.into()],
+            vec![K::Lock { m: 0 }.into(), st(0, 1, Rlx), K::NotifyAll { cv: 0 }.into(), K::Unlock { m: 0 }.into()],
+            vec![K::NNotify { n: 0 }.into()],
+            vec![K::Send { ch: 0, v: 10 + me as u64 }.into()],
+            vec![K::Unpark { t: 0 }.into()],
+        ];
+        if me == 1 {
+            b.push(vec![K::NWait { n: 0 }.into()]);
+        }
+        b
+    };
+    let main_pool_blocks: Vec<Vec<Op>> = vec![
+        vec![K::Lock { m: 0 }.into(), fadd(1, 1, Rlx), K::Unlock { m: 0 }.into()],
+        vec![K::Lock { m: 0 }.into(), ld(0, Rlx), K::Wait { cv: 0, m: 0 }.when(1, Res::V(0)), K::Unlock { m: 0 }.into()],
+        vec![K::Recv { ch: 0 }.into()],
+        vec![K::TryRecv { ch: 0 }.into()],
+        vec![K::Park.into()],
+        vec![K::Write { l: 0 }.into(), K::UnlockW { l: 0 }.into()],
+        vec![K::TryWrite { l: 0 }.into(), K::UnlockW { l: 0 }.when(0, Res::Ok(0))],
+    ];
+    let seq_blocks = |blocks: &Vec<Vec<Op>>, maxb: usize, allow_empty: bool| -> Vec<Vec<Op>> {
+        let mut pool: Vec<Vec<Op>> = vec![];
+        if allow_empty {
+            pool.push(vec![]);
+        }
+        let mut cur: Vec<Vec<Vec<Op>>> = vec![vec![]];
+        for _ in 0..maxb {
+            let mut nxt = vec![];
+            for s in &cur {
+                for bl in blocks {
+                    let mut s2 = s.clone();
+                    s2.push(bl.clone());
+                    nxt.push(s2);
+                }
+            }
+            for s in &nxt {
+                pool.push(concat_blocks(s));
+            }
+            cur = nxt;
+        }
+        pool
+    };
+    let mut pools: Vec<Vec<Vec<Op>>> = vec![seq_blocks(&main_pool_blocks, main_blocks, true)];
+    for me in 1..=nchildren {
+        pools.push(seq_blocks(&child_blocks(me), maxblocks, false));
+    }
+    fn rec(pools: &[Vec<Vec<Op>>], t: usize, cur: &mut Vec<Vec<Op>>, left: usize, out: &mut Vec<Vec<Vec<Op>>>) {
+        if t == pools.len() {
+            out.push(cur.clone());
+            return;
+        }
+        for th in &pools[t] {
+            if th.len() > left {
+                continue;
+            }
+            cur.push(th.clone());
+            rec(pools, t + 1, cur, left - th.len(), out);
+            cur.pop();
+        }
+    }
+    let mut combos = vec![];
+    rec(&pools, 0, &mut vec![], max_total_ops, &mut combos);
+    let mut out = vec![];
+    let mut seen = HashSet::new();
+    for c in combos {
+        // at least two different kinds of primitive in the program
+        let mut kinds = std::collections::BTreeSet::new();
+        for op in c.iter().flatten() {
+            for (k, _) in obj_refs_ro(&op.k) {
+                if k != 0 {
+                    kinds.insert(k);
+                }
+            }
+            if matches!(op.k, K::Park | K::Unpark { .. }) {
+                kinds.insert(9);
+            }
+        }
+        if kinds.len() < 2 {
+            continue;
+        }
+        let shift = nchildren;
+        let main_mid: Vec<Op> = c[0]
+            .iter()
+            .cloned()
+            .map(|mut op| {
+                if let Some(g) = op.g.as_mut() {
+                    g.idx += shift;
+                }
+                op
+            })
+            .collect();
+        let objs = Objs { atomics: vec![0, 0], mutexes: 1, rwlocks: 1, condvars: 1, notifies: 1, chans: 1, ..Default::default() };
+        let p = with_main("MIX", objs, vec![], c[1..].to_vec(), main_mid, vec![ld(1, Rlx)]);
+        if seen.insert(p.text()) {
+            out.push(p);
+        }
+    }
+    out
+}
+
+pub fn mix_programs(tier: &str) -> Vec<Program> {
+    if tier == "quick" {
+        let mut v = mix_family(2, 1, 1, 10);
+        v.extend(mix_family(1, 2, 1, 10));
+        v
+    } else {
+        let mut v = mix_family(2, 1, 2, 14);
+        v.extend(mix_family(2, 2, 1, 12));
+        v.extend(mix_family(3, 1, 1, 12));
+        v
+    }
+}
+
+/// LOCK with arrival flags: every waiter raises its own flag before it asks for the lock and the
+/// holder reads all flags inside its critical section, so an outcome tells which waiters were
+/// already queued when the lock was released (and who got it next).
+pub fn lock_arrival_family(tier: &str) -> Vec<Program> {
+    let mut out = vec![];
+    let nws: &[usize] = if tier == "quick" { &[2] } else { &[2, 3] };
+    for &nw in nws {
+        for rw in [false, true] {
+            for holder_is_main in [true, false] {
+                for try_waiter in [false, true] {
+                    let acq = |t: bool| -> K {
+                        if rw {
+                            if t {
+                                K::TryWrite { l: 0 }
+                            } else {
+                                K::Write { l: 0 }
+                            }
+                        } else if t {
+                            K::TryLock { m: 0 }
+                        } else {
+                            K::Lock { m: 0 }
+                        }
+                    };
+                    let rel = || if rw { K::UnlockW { l: 0 } } else { K::Unlock { m: 0 } };
+                    // atomic 0 = data (only under the lock), atomics 1..=nw = arrival flags
+                    let mut children: Vec<Vec<Op>> = vec![];
+                    for w in 1..=nw {
+                        let t = try_waiter && w == nw;
+                        let mut th: Vec<Op> = vec![st(w, 1, Sc), acq(t).into()];
+                        if t {
+                            th.push(K::FetchAdd { a: 0, v: 1, mo: Rlx }.when(1, Res::Ok(0)));
+                            th.push(rel().when(1, Res::Ok(0)));
+                        } else {
+                            th.push(fadd(0, 1, Rlx));
+                            th.push(rel().into());
+                        }
+                        children.push(th);
+                    }
+                    let mut holder: Vec<Op> = vec![acq(false).into()];
+                    for w in 1..=nw {
+                        holder.push(ld(w, Sc));
+                    }
+                    holder.push(fadd(0, 1, Rlx));
+                    holder.push(rel().into());
+                    let objs = Objs { atomics: vec![0; nw + 1], mutexes: if rw { 0 } else { 1 }, rwlocks: if rw { 1 } else { 0 }, ..Default::default() };
+                    let p = if holder_is_main {
+                        with_main("LOCK-arrival", objs, vec![], children, holder, vec![ld(0, Rlx)])
+                    } else {
+                        if nw == 3 {
+                            continue; // 5 threads with main: beyond MAX_THREADS bookkeeping of the reference
+                        }
+                        children.push(holder);
+                        with_main("LOCK-arrival", objs, vec![], children, vec![], vec![ld(0, Rlx)])
+                    };
+                    out.push(p);
+                }
+            }
+        }
+    }
+    out
+}
